@@ -418,6 +418,35 @@ def section_joins(serif, out):
     out.append("")
 
 
+def section_index(serif, out):
+    """C07: `typeutils.slice_length` executed on a whole small domain (translation by tabulation).
+    One row per Nat, base-16 digits (n, start, stop, step, result): a slice member x is x+8, None is 15;
+    the result r is r+1, a raise (or a non-int / negative result) is 0."""
+    rows = []
+    try:
+        from serif.typeutils import slice_length
+        mem = [None, -3, -1, 0, 1, 2, 4]
+
+        def enc(x):
+            return 15 if x is None else x + 8
+        for n in range(0, 4):
+            for a in mem:
+                for b in mem:
+                    for c in (None, 1, -1, 2, -2, 0):
+                        try:
+                            r = slice_length(slice(a, b, c), n)
+                            res = r + 1 if type(r) is int and 0 <= r < 15 else 0
+                        except ValueError:
+                            res = 0
+                        rows.append(str((((n * 16 + enc(a)) * 16 + enc(b)) * 16 + enc(c)) * 16 + res))
+    except Exception:
+        rows = []          # neutral value: the non-vacuity theorem of Props/C07 then fails, which is the signal
+    out.append("/-- `typeutils.slice_length(slice(start, stop, step), n)` tabulated on the live code, one packed row per\n"
+               "    entry: base-16 digits (n, start, stop, step, result); member x ↦ x+8, None ↦ 15; result r ↦ r+1, raise ↦ 0 -/")
+    out.append("def sliceLengthTable : List Nat := " + lean_list(rows, 12))
+    out.append("")
+
+
 
 
 def generate():
